@@ -552,6 +552,10 @@ class Ctx:
         pool = mp.get_context("fork").Pool(workers, initializer=_par_init)
         try:
             for idx, case, fj in pool.imap_unordered(_par_worker, range(n_cases), chunksize=4):
+                try:        # the parent only waits here: every result pushes the outer watchdog on
+                    signal.setitimer(signal.ITIMER_REAL, _outer_limit(self.tier), 1.0)
+                except ValueError:
+                    pass
                 if fj == "infra":
                     raise Infra(f"worker failed on case {idx}: {case}")
                 fail = None if fj is None else Failure(fj["kind"], fj["what"], fj.get("detail"), fj.get("key"))
